@@ -324,3 +324,6 @@ func (t *Tty) ResizeLocked(w, h int) {
 
 // ReadCount returns the number of Read calls so far (call with the lock held, e.g. from Locked).
 func (t *Tty) ReadCount() int64 { return atomic.LoadInt64(&t.reads) }
+
+// Pending is the number of fed chunks no Read has taken yet.
+func (t *Tty) Pending() int { return len(t.in) }
